@@ -83,6 +83,8 @@ def main(argv=None):
 	args = ap.parse_args(argv)
 	seed = int(os.environ.get('VERIF_SEED', '0') or 0)
 	pid = args.prop
+	if os.environ.get('PYVC_CHILD') != '1' and not args.replay:
+		return supervise(argv if argv is not None else sys.argv[1:])
 	mod = importlib.import_module(f'props.{pid}')
 	if args.replay:
 		return do_replay(mod, pid, args)
@@ -99,6 +101,48 @@ def main(argv=None):
 			traceback.print_exc()
 		code = 3
 	return code
+
+
+def supervise(argv):
+	"""The check proper runs in a child process.  The in-process SMT library can crash the interpreter (a segmentation fault inside
+	z3 was observed on changed code); such a crash must not take the check down: the child is started again with the target it was
+	working on skipped (that target becomes a machinery error, the other targets and the bounded run still take place)."""
+	import tempfile
+	fd, progress = tempfile.mkstemp(prefix='pyvc_progress_')
+	os.close(fd)
+	skip, nomodel = [], False
+	try:
+		for attempt in range(8):
+			env = dict(os.environ, PYVC_CHILD='1', PYVC_SKIP=json.dumps(skip), PYVC_PROGRESS=progress, PYVC_NO_MODEL='1' if nomodel else '')
+			open(progress, 'w').close()
+			p = subprocess.run([sys.executable, '-m', 'pyvc.driver'] + list(argv), env=env)
+			if 0 <= p.returncode < 128:
+				return p.returncode
+			cur = open(progress).read().strip()
+			print(f'[supervisor] the checking process died (status {p.returncode}) while working on: {cur or "start-up"}; restarting without it', flush=True)
+			if cur == '@post' and not nomodel:
+				nomodel = True
+			elif cur and cur != '@post' and cur not in skip:
+				skip.append(cur)
+			else:
+				break
+		print('MACHINERY-ERROR: the checking process keeps crashing')
+		return 3
+	finally:
+		try:
+			os.unlink(progress)
+		except OSError:
+			pass
+
+
+def _progress(label):
+	pth = os.environ.get('PYVC_PROGRESS')
+	if pth:
+		try:
+			with open(pth, 'w') as f:
+				f.write(label)
+		except OSError:
+			pass
 
 
 def do_replay(mod, pid, args):
@@ -154,6 +198,11 @@ def check(run, mod, args):
 			eng.specns = base_specns
 			eng.lib = lib
 		n_before = len(eng.obligations)
+		label_ = eng.label_of(qual, inst)
+		if label_ in json.loads(os.environ.get('PYVC_SKIP') or '[]'):
+			run.machinery_errors.append(f'the checking process crashed (signal) while generating the obligations of {label_}; target skipped')
+			continue
+		_progress(label_)
 		try:
 			eng.verify_function(qual, inst, override)
 		except (Unsupported, CyFrontError, PathLimit) as e:
@@ -168,6 +217,7 @@ def check(run, mod, args):
 			# target, but the remaining targets and the bounded run still take place (a replayed failing input is still a verdict)
 			run.machinery_errors.append(f'engine crashed on {eng.label_of(qual, inst)}: {type(e).__name__}: {e}')
 			traceback.print_exc()
+	_progress('@post')
 	obligations = list(eng.obligations)
 	lemma_obs = []
 	if hasattr(mod, 'lemmas'):
@@ -212,7 +262,7 @@ def check(run, mod, args):
 		rep = None
 		model = None
 		try:
-			model = smt.model_of(r.failed_instance)
+			model = None if os.environ.get('PYVC_NO_MODEL') else smt.model_of(r.failed_instance)
 		except Exception:
 			model = None
 		if hasattr(mod, 'replay'):
